@@ -1,8 +1,397 @@
 package main
 
-import "verif/vlib"
+// Optional engine-K part of C18, oracle (ii): a batch of cases is run in a
+// child process of this harness under `strace -f -y -e trace=%file`; the child
+// issues stat("/VERIF_MARK_BEGIN_<i>") and stat("/VERIF_MARK_END_<i>") around
+// the single call of the component, and every path-taking system call between
+// the two markers must resolve (lexically; directory file descriptors and the
+// working directory are resolved by strace -y) inside the component's root.
+// This is what sees reads whose result is thrown away (a stat or open of a
+// file outside the root that ends in "not found").
 
-// placeholders for the optional engine-K read audit
-func maybeAuditChild(c *vlib.Ctx, work string) bool       { return false }
-func replayAudit(c *vlib.Ctx, cs caseSpec, work string)   {}
-func runAudit(c *vlib.Ctx, work string)                   {}
+import (
+	"bufio"
+	"encoding/json"
+	"fmt"
+	"os"
+	"os/exec"
+	"path/filepath"
+	"regexp"
+	"sort"
+	"strconv"
+	"strings"
+	"sync"
+
+	"verif/vlib"
+)
+
+const (
+	auditChildEnv  = "VERIF_C18_AUDIT_CHILD"  // file with the JSON list of caseSpecs to run
+	auditResultEnv = "VERIF_C18_AUDIT_RESULT" // file the child writes its per-case records to
+	markBegin      = "/VERIF_MARK_BEGIN_"
+	markEnd        = "/VERIF_MARK_END_"
+)
+
+// auditIdx >= 0 switches runCase into audit mode: markers around the call.
+var auditIdx = -1
+
+func auditMark(kind string) {
+	if auditIdx >= 0 {
+		_, _ = os.Stat(kind + strconv.Itoa(auditIdx))
+	}
+}
+
+type auditRecord struct {
+	Idx        int      `json:"idx"`
+	Name       string   `json:"name"`
+	Target     string   `json:"target"`
+	Escaping   bool     `json:"escaping"`
+	Err        string   `json:"err"`
+	IsErr      bool     `json:"is_err"`
+	AllowSub   []string `json:"allow_sub"`   // subtrees the call may touch
+	AllowExact []string `json:"allow_exact"` // single paths the call may touch (not what is below them)
+	Scope      string   `json:"scope"`       // the child's work dir: everything in it that is not allowed is outside
+	Sandbox    string   `json:"sandbox"`
+}
+
+// maybeAuditChild runs the audit batch if this process is the traced child.
+func maybeAuditChild(c *vlib.Ctx, work string) bool {
+	specFile := os.Getenv(auditChildEnv)
+	if specFile == "" {
+		return false
+	}
+	var specs []caseSpec
+	b, err := os.ReadFile(specFile)
+	if err == nil {
+		err = json.Unmarshal(b, &specs)
+	}
+	if err != nil {
+		c.EngineError("audit child: cannot read specs: %v", err)
+		return true
+	}
+	w := &worker{dir: filepath.Join(work, "audit")}
+	recs := make([]auditRecord, 0, len(specs))
+	for i, cs := range specs {
+		auditIdx = i
+		var res caseResult
+		p, stack := vlib.Catch(func() { res = runCase(cs, w) })
+		if p != nil {
+			c.EngineError("audit child: case %+v: %v\n%s", cs, p, stack)
+			break
+		}
+		recs = append(recs, auditRecord{Idx: i, Name: res.name, Target: res.target, Escaping: res.escaping, Err: res.err, IsErr: res.isErr,
+			AllowSub: res.allowSub, AllowExact: res.allowExact, Scope: work, Sandbox: res.sandbox})
+	}
+	auditIdx = -1
+	out, _ := json.Marshal(recs)
+	if err := os.WriteFile(os.Getenv(auditResultEnv), out, 0o644); err != nil {
+		c.EngineError("audit child: cannot write results: %v", err)
+	}
+	return true
+}
+
+type access struct {
+	call string
+	path string
+	line string
+}
+
+var (
+	lineRe = regexp.MustCompile(`^(\d+)\s+(\w+)\((.*)$`)
+	argRe  = regexp.MustCompile(`(AT_FDCWD|\d+)<([^>]*)>|"((?:[^"\\]|\\.)*)"`)
+)
+
+// parseTrace returns, per marker index, the path accesses between the markers.
+func parseTrace(logFile string) (map[int][]access, map[int]bool, error) {
+	f, err := os.Open(logFile)
+	if err != nil {
+		return nil, nil, err
+	}
+	defer func() { _ = f.Close() }()
+	acc := map[int][]access{}
+	closed := map[int]bool{}
+	cur := -1
+	sc := bufio.NewScanner(f)
+	sc.Buffer(make([]byte, 1<<20), 1<<24)
+	for sc.Scan() {
+		line := sc.Text()
+		m := lineRe.FindStringSubmatch(line)
+		if m == nil {
+			continue // "<... resumed>", exits, signals: the arguments were printed with the call's entry
+		}
+		call, args := m[2], m[3]
+		if i := strings.Index(args, markBegin); i >= 0 {
+			n, _ := strconv.Atoi(strings.SplitN(args[i+len(markBegin):], `"`, 2)[0])
+			if cur != -1 {
+				return nil, nil, fmt.Errorf("marker %d begins inside marker %d", n, cur)
+			}
+			cur = n
+			acc[cur] = nil
+			continue
+		}
+		if i := strings.Index(args, markEnd); i >= 0 {
+			n, _ := strconv.Atoi(strings.SplitN(args[i+len(markEnd):], `"`, 2)[0])
+			if n != cur {
+				return nil, nil, fmt.Errorf("marker %d ends, but marker %d is open", n, cur)
+			}
+			closed[cur] = true
+			cur = -1
+			continue
+		}
+		if cur < 0 || call == "getcwd" {
+			continue
+		}
+		// strip the result part, so that the path annotation of a returned fd is not read as an argument
+		if i := strings.LastIndex(args, ") = "); i >= 0 {
+			args = args[:i]
+		}
+		dir := ""
+		for _, a := range argRe.FindAllStringSubmatch(args, -1) {
+			if a[1] != "" {
+				dir = strings.TrimSuffix(a[2], " (deleted)")
+				continue
+			}
+			p := a[3]
+			if !filepath.IsAbs(p) {
+				if dir == "" {
+					p = "{UNKNOWN-DIR}/" + p
+				} else {
+					p = filepath.Join(dir, p)
+				}
+			}
+			acc[cur] = append(acc[cur], access{call: call, path: filepath.Clean(p), line: line})
+		}
+	}
+	if cur != -1 {
+		return nil, nil, fmt.Errorf("marker %d never ends", cur)
+	}
+	return acc, closed, sc.Err()
+}
+
+// judge returns the accesses of one case that are outside what it may touch.
+func judge(rec auditRecord, accs []access) []access {
+	var bad []access
+	for _, a := range accs {
+		ok := false
+		for _, s := range rec.AllowSub {
+			ok = ok || within(a.path, s)
+		}
+		for _, e := range rec.AllowExact {
+			ok = ok || a.path == e
+		}
+		if ok {
+			continue
+		}
+		inScope := within(a.path, rec.Scope) || strings.HasPrefix(a.path, "{UNKNOWN-DIR}")
+		for _, p := range absProbes {
+			inScope = inScope || within(a.path, p)
+		}
+		if inScope {
+			bad = append(bad, a)
+		}
+	}
+	return bad
+}
+
+// runTraced runs the specs in one traced child and returns records and accesses.
+func runTraced(dir string, tier string, specs []caseSpec) ([]auditRecord, map[int][]access, error) {
+	if err := os.MkdirAll(dir, 0o755); err != nil {
+		return nil, nil, err
+	}
+	specFile, resFile, logFile := filepath.Join(dir, "specs.json"), filepath.Join(dir, "result.json"), filepath.Join(dir, "strace.log")
+	b, _ := json.Marshal(specs)
+	if err := os.WriteFile(specFile, b, 0o644); err != nil {
+		return nil, nil, err
+	}
+	exe, err := os.Executable()
+	if err != nil {
+		return nil, nil, err
+	}
+	cmd := exec.Command("strace", "-f", "-y", "-s", "4096", "-qq", "-e", "signal=none", "-e", "trace=%file", "-o", logFile,
+		exe, "--tier", tier, "--out", filepath.Join(dir, "shard.json"))
+	cmd.Env = append(os.Environ(), auditChildEnv+"="+specFile, auditResultEnv+"="+resFile, "TMPDIR=")
+	cmd.Dir = "/"
+	if out, err := cmd.CombinedOutput(); err != nil {
+		return nil, nil, fmt.Errorf("traced child failed: %v\n%s", err, out)
+	}
+	var recs []auditRecord
+	rb, err := os.ReadFile(resFile)
+	if err == nil {
+		err = json.Unmarshal(rb, &recs)
+	}
+	if err != nil {
+		return nil, nil, fmt.Errorf("traced child left no result: %v", err)
+	}
+	acc, closed, err := parseTrace(logFile)
+	if err != nil {
+		return nil, nil, fmt.Errorf("trace does not validate: %v", err)
+	}
+	if len(recs) != len(specs) {
+		return nil, nil, fmt.Errorf("traced child ran %d of %d cases", len(recs), len(specs))
+	}
+	for _, r := range recs {
+		if !closed[r.Idx] {
+			return nil, nil, fmt.Errorf("trace has no complete marker pair for case %d", r.Idx)
+		}
+	}
+	return recs, acc, nil
+}
+
+func auditEvaluate(c *vlib.Ctx, cs caseSpec, rec auditRecord, accs []access, verbose bool) {
+	cs.Audit = true
+	cs.Name = rec.Name
+	site := cs.site()
+	anon := strings.NewReplacer(rec.Sandbox, "{SANDBOX}", rec.Scope, "{WORK}")
+	bad := judge(rec, accs)
+	if verbose {
+		fmt.Printf("audited case: %s(%q) root={SANDBOX}/%s\n  escaping=%v error=%q\n  %d path accesses between the markers, %d outside the root\n",
+			site, rec.Name, strings.Join(cs.Chain, "/"), rec.Escaping, rec.Err, len(accs), len(bad))
+		for _, a := range accs {
+			fmt.Printf("    %s %s\n", a.call, anon.Replace(a.path))
+		}
+	}
+	out := "audit:" + cs.Comp + "." + cs.Op
+	if rec.Escaping {
+		out += "/escaping"
+	} else {
+		out += "/inside"
+	}
+	if len(bad) > 0 {
+		var l []string
+		for i, a := range bad {
+			if i == 6 {
+				l = append(l, fmt.Sprintf("... and %d more", len(bad)-6))
+				break
+			}
+			l = append(l, a.call+" "+anon.Replace(a.path))
+		}
+		disc := "outside-access-for-name-inside-root"
+		if rec.Escaping {
+			disc = "outside-access-for-escaping-name"
+		}
+		c.Violate("no-access-outside-root", site, disc,
+			fmt.Sprintf("%s(%q) root={SANDBOX}/%s (escaping=%v, returned error %q) issued system calls on paths outside the root:\n%s",
+				site, rec.Name, strings.Join(cs.Chain, "/"), rec.Escaping, rec.Err, strings.Join(l, "\n")), cs)
+		out += "/outside-access"
+	} else {
+		out += "/clean"
+	}
+	c.Outcome(out)
+	c.Add(0, int64(len(accs)), 1)
+	if rec.Escaping {
+		c.Nontrivial(fmt.Sprintf("audit|%s|%s|%v|%s%s", cs.Comp, cs.Op, cs.Chain, cs.Prefix, cs.Rel))
+	}
+}
+
+func auditSpecs(c *vlib.Ctx) []caseSpec {
+	maxSeg := vlib.Pick(c, 2, 3)
+	chains := [][]string{{"rt"}, {"a", "rt", "rt"}}
+	unp := [][]string{{"st", "tmp", unpackRoot}, {"a", unpackRoot, "st", "tmp", unpackRoot}}
+	sets := []rootSet{
+		{"fstree", []string{"Put", "Get", "Delete", "Query"}, chains, nil},
+		{"dirstruct", []string{"EnsureAbsPath", "EnsureRelPath", "EnsureRelDir"}, chains, nil},
+		{"unpack", []string{"UnpackArchive"}, unp, nil},
+		{"scan", []string{"ScanStorage"}, chains, nil},
+	}
+	only := os.Getenv("VERIF_C18_ONLY")
+	var specs []caseSpec
+	for _, rs := range sets {
+		if only != "" && only != rs.comp {
+			continue
+		}
+		for _, chain := range rs.chains {
+			for _, r := range rels(chain[len(chain)-1], maxSeg) {
+				for _, pf := range prefixes {
+					if rs.comp == "scan" && pf == prefNone {
+						// resolving a relative scan root asks for the working directory, which
+						// lies outside the root by construction: not audited (covered by engine Q)
+						continue
+					}
+					for _, op := range rs.ops {
+						specs = append(specs, caseSpec{Comp: rs.comp, Op: op, Chain: chain, Prefix: pf, Rel: r, Cwd: "parent"})
+					}
+				}
+			}
+		}
+	}
+	for i := range specs {
+		if specs[i].Comp != "scan" {
+			specs[i].Cwd = ""
+		}
+	}
+	return specs
+}
+
+// runAudit is the parent side: traced children in parallel, then the verdicts in enumeration order.
+func runAudit(c *vlib.Ctx, work string) {
+	if os.Getenv("VERIF_C18_NOAUDIT") != "" {
+		c.Extra("read_audit", "switched off by VERIF_C18_NOAUDIT")
+		return
+	}
+	if _, err := exec.LookPath("strace"); err != nil {
+		c.Extra("read_audit", "skipped: strace not found")
+		c.Assume("strace was not available: oracle (ii) (system-call audit of reads outside the root) did not run")
+		return
+	}
+	if c.Expired() {
+		return
+	}
+	specs := auditSpecs(c)
+	if len(specs) == 0 {
+		return
+	}
+	const children = 8
+	type part struct {
+		lo, hi int
+		recs   []auditRecord
+		acc    map[int][]access
+		err    error
+	}
+	parts := make([]*part, 0, children)
+	per := (len(specs) + children - 1) / children
+	for lo := 0; lo < len(specs); lo += per {
+		hi := lo + per
+		if hi > len(specs) {
+			hi = len(specs)
+		}
+		parts = append(parts, &part{lo: lo, hi: hi})
+	}
+	var wg sync.WaitGroup
+	for i, p := range parts {
+		wg.Add(1)
+		go func(i int, p *part) {
+			defer wg.Done()
+			p.recs, p.acc, p.err = runTraced(filepath.Join(work, fmt.Sprintf("audit%d", i)), c.Tier, specs[p.lo:p.hi])
+		}(i, p)
+	}
+	wg.Wait()
+	n := 0
+	for _, p := range parts {
+		if p.err != nil {
+			c.EngineError("read audit: %v", p.err)
+			return
+		}
+		for _, r := range p.recs {
+			auditEvaluate(c, specs[p.lo+r.Idx], r, p.acc[r.Idx], false)
+			n++
+		}
+	}
+	c.Extra("read_audit", fmt.Sprintf("%d cases traced under strace in %d child processes, every marker pair validated", n, len(parts)))
+	c.Scenario("read audit under strace (oracle ii)")
+}
+
+func replayAudit(c *vlib.Ctx, cs caseSpec, work string) {
+	if _, err := exec.LookPath("strace"); err != nil {
+		c.EngineError("replay of an audit witness needs strace: %v", err)
+		return
+	}
+	cs.Audit = false
+	recs, acc, err := runTraced(filepath.Join(work, "audit-replay"), c.Tier, []caseSpec{cs})
+	if err != nil {
+		c.EngineError("read audit: %v", err)
+		return
+	}
+	auditEvaluate(c, cs, recs[0], acc[0], true)
+}
+
+var _ = sort.Strings
